@@ -379,7 +379,7 @@ def run(ctx):
                      gridworld_mod.GridWorld.functional_step, gridworld_mod.GridWorld.functional_observation,
                      gv_rng.get_gv_rng_if_none, transition_fs.chain, reset_fs.memory, reset_fs.memory_rooms]):
         nops = ctx.pick(120, 300)
-        seeds = ctx.pick(2, 8)
+        seeds = ctx.pick(2, 30)
         job = 0
         for name, path, data in configs:
             for s in range(seeds):
@@ -397,7 +397,7 @@ def run(ctx):
                 ctx.addset('configs', name)
                 if solo and s == 0 and name.startswith('gv_dynamic'):
                     ctx.sample('trace_head', {'config': name, 'seed': seed, 'first_ops': [list(e) for e in solo[:4]]}, per_kind=1)
-        for k in range(ctx.pick(16, 200)):
+        for k in range(ctx.pick(16, 800)):
             if not ctx.mine(k):
                 continue
             if ctx.out_of_time(0.75):
@@ -413,12 +413,12 @@ def run(ctx):
                          [('comp', factory, seed), ('comp', factory, seed + 3)])
             ctx.hit('compositions.compared')
         # cross-process digests under different PYTHONHASHSEED
-        all_hash_seeds = list(range(1, ctx.pick(5, 17)))
+        all_hash_seeds = list(range(1, ctx.pick(5, 33)))
         mine = [h for i, h in enumerate(all_hash_seeds) if ctx.mine(i)]
         cross_process(ctx, mine, ctx.seed * 31 + 5, ctx.pick(60, 150))
         if ctx.thorough:
             four = [(n, d) for n, _, d in configs if any(k in n for k in ('dynamic_obstacles.7x7', 'teleport.7x7', 'memory_nine_rooms.10x10', 'keydoor.7x7'))]
-            for rep in range(6):
+            for rep in range(32):
                 if ctx.mine(rep):
                     threads(ctx, four, ctx.seed * 50 + rep, 200)
         ctx.sample('hostile_actions', ['other_env', 'unseeded_reset', 'unseeded_transition', 'unseeded_visibility', 'reset_gv_rng',
